@@ -44,6 +44,8 @@ def run(prog: Program, rep, tier="quick"):
     rep.rule("R20.1", "TABLE-AGREE: reader escape table inverts every escape the writer emits; backslash escaped first")
     rep.rule("R20.2", "every byte special to the reader outside quotes (anywhere / at an edge) is escaped or forces quoting")
     rep.rule("R20.3", "subsection escapes are restored by the reader; LF/NUL refused; quote-toggling scanners are escape-aware")
+    rep.rule("R20.5", "TABLE-AGREE against a frozen reference of git's parse_value: only escapes git knows; bytes git folds are escaped/quoted")
+    rep.rule("R20.6", "normalised keys (lower_key) are compared only with normalised keys")
     rep.rule("R20.4", "ConfigFile.write_to_path writes through the lock protocol")
     rep.not_decided += ["multi-valued key order", "case rules", "what git itself reads (only the table relation is decided)"]
     rep.assumptions += ["from_file splits the input into lines at LF, so LF always ends a value",
@@ -224,6 +226,40 @@ def run(prog: Program, rep, tier="quick"):
                "_escape_subsection flips it, and a following '#' or ';' is then taken for a comment", f.node.lineno)
     if n_scanners < 3:
         raise AnalysisError(f"expected >= 3 quote-toggling scanners in config.py, found {n_scanners}")
+    # ---- R20.5 frozen reference of git's own value reader (config.c:parse_value): escapes it knows, whitespace it folds
+    GIT_ESCAPES = set(b'ntb\\"')
+    for byte, letter in sorted(W.items()):
+        rep.ob("R20.5", CFG_PY, "_escape_value", f"escape \\{chr(letter)} is one git knows", letter in GIT_ESCAPES,
+               f"git's parse_value only knows \\n \\t \\b \\\\ \\\": a file containing \\{chr(letter)} is fatal for git ('bad config line')",
+               next(ln for a, b, ln in chain if a[0] == byte))
+    for b_ in (9, 10, 13):
+        ok = b_ in Q_any or b_ in E
+        rep.ob("R20.5", CFG_PY, "_format_string", f"byte {bytes([b_])!r}, which git folds to a space when unquoted, is escaped or forces quoting", ok,
+               f"git replaces an unquoted {bytes([b_])!r} anywhere in a value by a space: the value git reads differs from the one written",
+               fmt.node.lineno)
+    # ---- R20.6 normalised-key discipline of the case-insensitive multi-dict: a key normalised with lower_key() is only
+    # ever compared with another normalised key
+    n_cmp = 0
+    for q, f in m.funcs.items():
+        if "#" in q:
+            continue
+        normalised = {s_.targets[0].id for s_ in ast.walk(f.node) if isinstance(s_, ast.Assign) and isinstance(s_.targets[0], ast.Name)
+                      and isinstance(s_.value, ast.Call) and callee_name(s_.value) == "lower_key"}
+        fparams = {a.arg for a in f.node.args.args}
+        for x in ast.walk(f.node):
+            if isinstance(x, ast.Compare) and len(x.ops) == 1 and isinstance(x.ops[0], (ast.Eq, ast.NotEq, ast.In, ast.NotIn)):
+                sides = [x.left, x.comparators[0]]
+                lk = [s_ for s_ in sides if isinstance(s_, ast.Call) and callee_name(s_) == "lower_key"]
+                if len(lk) != 1:
+                    continue
+                other = sides[1] if sides[0] is lk[0] else sides[0]
+                n_cmp += 1
+                ok = not (isinstance(other, ast.Name) and other.id in fparams and other.id not in normalised)
+                rep.ob("R20.6", CFG_PY, q, f"`{norm(x, 60)}` compares normalised with normalised", ok,
+                       f"`{norm(lk[0])}` is compared with the raw parameter `{norm(other)}`: keys spelled with capitals never match, so an "
+                       f"unset through such a spelling leaves the entry in the written file", x.lineno)
+    if n_cmp < 1:
+        raise AnalysisError("no comparison against lower_key(...) found in config.py")
     # ---- R20.4
     wp = fn("ConfigFile.write_to_path")
     gfs = [c for c in ast.walk(wp.node) if is_gitfile_call(prog, m, c) and "w" in (gitfile_mode(c) or "")]
